@@ -55,3 +55,37 @@ func VerifC08Flush(s *StatsCtx) {
 func VerifC08DB(s *StatsCtx) (db *bbolt.DB) {
 	return s.db.Load()
 }
+
+// VerifC08Rebase puts s on the harness's unit-id clock: initDNS creates the
+// module on the wall clock (it passes no Config.UnitID); the current unit is
+// re-created for clock() exactly as New creates it (loaded from its bucket).
+func VerifC08Rebase(s *StatsCtx, clock func() (id uint32)) {
+	s.currMu.Lock()
+	defer s.currMu.Unlock()
+
+	s.unitIDGen = clock
+	id := clock()
+
+	var udb *unitDB
+	if db := s.db.Load(); db != nil {
+		tx, err := db.Begin(true)
+		if err != nil {
+			panic(err)
+		}
+		udb = s.loadUnitFromDB(tx, id)
+		if err = finishTxn(tx, false); err != nil {
+			panic(err)
+		}
+	}
+
+	s.curr = newUnit(id)
+	s.curr.deserialize(udb)
+}
+
+// VerifC08CurID returns the id of the current unit of s.
+func VerifC08CurID(s *StatsCtx) (id uint32) {
+	s.currMu.RLock()
+	defer s.currMu.RUnlock()
+
+	return s.curr.id
+}
